@@ -275,7 +275,7 @@ func c04b(c *Ctx) {
 			okNext, okLast := false, false
 			for i, e := range nx.Edges {
 				et := c.term(fn, e)
-				must := c.mustLits(fn, nx.Block().Preds[i])
+				must := c.edgeMust(fn, nx.Block().Preds[i], nx.Block())
 				idx := ""
 				if j := strings.LastIndex(k, "["); j > 0 {
 					idx = strings.TrimSuffix(k[j+1:], "]")
